@@ -41,7 +41,7 @@ impl Neighborhood<TransitionCycleWithInfo> for TransitionCycleNeighborhood {
     ) -> Box<dyn Iterator<Item = TransitionCycleWithInfo> + Send + Sync + 'a> {
         let cycle = transition_cycle_with_info.get_cycle();
         let cycle_length = cycle.len();
-        Box::new((0..cycle_length - 2).flat_map(move |i| {
+        Box::new((0..cycle_length.saturating_sub(2)).flat_map(move |i| {
             (i + 1..cycle_length - 1).flat_map(move |j| {
                 (j + 1..cycle_length).map(move |k| {
                     TransitionCycleWithInfo::new(
